@@ -99,6 +99,14 @@ def run(tier, work):
             continue
         mentions = cname in ("same-short-name-other-frame", "same-short-name-builtin-frame") and tag.startswith("classes")
         key = ("Dev_FlatBuiltinClassList" if mentions else "%s:%s" % (cname, tag))
+        if mentions:
+            # the known deviation is counted per differing output LINE, not per program: a change that makes more rows of
+            # an already differing program go wrong still shows as growth
+            la0, lb0 = (b.get("out") or "").split("\n"), (res.get("out") or "").split("\n")
+            extra_lines = max(0, len([x for x in lb0 if x not in la0]) + len([x for x in la0 if x not in lb0]) - 1)
+            for _ in range(extra_lines):
+                if v.seen(key):
+                    v.again(key)
         if v.seen(key):
             v.again(key)
             continue
